@@ -163,7 +163,8 @@ public:
   void assign(iterator first, iterator last) {
     size_t n = last - first;
     resize(n);
-    memcpy(reinterpret_cast<void*>(data_), first, n * sizeof(_Tp));
+    if (n) // data_ may still be null for an empty array
+      memcpy(reinterpret_cast<void*>(data_), first, n * sizeof(_Tp));
   }
 
   reference front() { return data_[0]; }
